@@ -25,6 +25,7 @@ RULE = (
     "--skip_deduplication/--skip_rollup/--keep_decoys, judged with the scores of an all-PSM run of the same seed. "
     "Non-trivial = >=1 spectrum and >=1 peptide with multiplicity >=2 whose best and second-best rows differ in "
     "label or peptide; distinct = case parameters."
+    " cli_multi: the command-line tool on 2..3 PIN files named in non-sorted order (with / without --file_root, 1..2 workers): per-stem result files hold that file's PSMs only and are judged like a single collection."
 )
 ASSUMPTIONS = [
     "output column names are read from the written header; only PSMId, peptide, proteinIds, score, q-value and the level columns are interpreted",
@@ -53,10 +54,12 @@ def plan(seed, tier):
     k = 6 if tier == "quick" else 40
     for i in range(k):
         cases.append({"class": "cli", "index": i, "cost": 25})
+    for i in range(4 if tier == "quick" else 24):
+        cases.append({"class": "cli_multi", "index": i, "cost": 30})
     return cases
 
 
-MANDATORY_CLASSES = ["confidence", "rollup_tool", "cli"]
+MANDATORY_CLASSES = ["confidence", "rollup_tool", "cli", "cli_multi"]
 
 
 def _input_frame(tab, scores):
@@ -328,5 +331,65 @@ def run_cli(case):
     return res
 
 
+def run_cli_multi(case):
+    """The command-line tool on several PIN files named in an order that is not the sorted order (and once with a file
+    root): every collection gets its own result files, named after its file stem, holding its own PSMs only."""
+    rng = core.seed_seq(case["seed"], "C03", "cli_multi", case["index"])
+    res = Result(case)
+    with core.scratch("c03m") as d:
+        stems = [["zeta", "alpha"], ["run_b", "run_a", "run_c"], ["m2", "m10", "m1"], ["b.x", "a.y"]][case["index"] % 4]
+        tabs, paths = [], []
+        for fi, stem in enumerate(stems):
+            tab = psm.psm_table(rng, n_spectra=int(rng.integers(350, 600)), mult_max=3, key_cols=("ExpMass",), with_rid=False,
+                                file_index=fi, pep_pool=40, sep_strength=3.5, pi1=0.6)
+            tabs.append(tab)
+            paths.append(psm.write_pin(tab, d / f"{stem}.pin"))
+        root = "exp" if case["index"] % 3 == 1 else None
+        common = [*paths, "--seed", 11, "--folds", 2, "--max_iter", 2, "--train_fdr", 0.05, "--test_fdr", 0.05, "-v", 0,
+                  "--keep_decoys", "--max_workers", [1, 2][case["index"] % 2]] + (["--file_root", root] if root else [])
+        extra = dict(stems=stems, file_root=root)
+        a = _cli(common + ["--dest_dir", d / "all", "--skip_deduplication", "--skip_rollup"])
+        res.count("cli_runs")
+        if not a.ok:
+            if a.explicit:
+                res["status"] = "refused"
+                res["note"] = a.info["msg"]
+                return res
+            res.violate("crash", a.sig + "/multi", msg=a.info["msg"], **extra)
+            return res
+        fa = pipeline.read_results(d / "all")
+        rootp = f"{root}." if root else ""
+        inps = []
+        for stem, tab in zip(stems, tabs):
+            fl = _files_for(fa, rootp, stem, "psms")
+            if fl["targets"] is None or fl["decoys"] is None:
+                res.violate("missing_result_file", f"{stem}.psms", files=sorted(fa)[:12], **extra)
+                return res
+            allp = pd.concat([fl["targets"], fl["decoys"]], ignore_index=True)
+            mine = set(tab["df"]["SpecId"].astype(str))
+            got = allp["PSMId"].astype(str)
+            if not set(got) <= mine:
+                res.violate("collections_mixed", f"cli/{stem}", foreign_rows=int((~got.isin(mine)).sum()), **extra)
+                return res
+            if sorted(got) != sorted(mine):
+                res.violate("psm_rows_lost_or_duplicated", "cli multi --skip_deduplication", expected=len(mine), got=len(allp), **extra)
+                return res
+            score_of = dict(zip(got, allp["score"].astype(float)))
+            inps.append(_input_frame(tab, [score_of[i] for i in tab["df"]["SpecId"].astype(str)]))
+        b = _cli(common + ["--dest_dir", d / "std"])
+        res.count("cli_runs")
+        if not b.ok:
+            res.violate("crash", b.sig + "/multi_standard", msg=b.info["msg"], **extra)
+            return res
+        fb = pipeline.read_results(d / "std")
+        for stem, tab, inp in zip(stems, tabs, inps):
+            judge_collection(res, inp, fb, rootp, stem, tab, True, True, True, dict(extra, run="standard", stem=stem))
+            if res["violations"]:
+                return res
+        res["nontrivial"] = True
+        res["sample"] = dict(extra, files=sorted(fb))
+    return res
+
+
 def run_case(case):
-    return {"confidence": run_confidence, "rollup_tool": run_rollup_tool, "cli": run_cli}[case["class"]](case)
+    return {"confidence": run_confidence, "rollup_tool": run_rollup_tool, "cli": run_cli, "cli_multi": run_cli_multi}[case["class"]](case)
